@@ -358,7 +358,9 @@ def substitute(t: T, env: dict[str, T]) -> T:
     return T(t.op, tuple(substitute(a, env) for a in t.args), t.val)
 
 
-def normalize(t: T) -> Rat:
+def normalize(t) -> Rat:
+    if isinstance(t, int) and not isinstance(t, bool):
+        return C(t)
     o = t.op
     if o == "num":
         return C(t.val)
